@@ -238,7 +238,14 @@ class RuntimeName(Name, Object, Callable):
         try:
             return {k: RuntimeName(k, v) for k, v in iteritems(vars(self.value))}
         except TypeError:
-            return {k: RuntimeName(k, getattr(self.value, k, None)) for k in dir(self.value)}
+            attrs = {}
+            for k in dir(self.value):
+                try:
+                    attrs[k] = RuntimeName(k, getattr(self.value, k, None))
+                except Exception:
+                    # a property of a live object may raise anything
+                    attrs[k] = RuntimeName(k, None)
+            return attrs
 
     def call(self, ctx):
         # type: (EvalCtx) -> Object | None
